@@ -342,13 +342,13 @@ func TestC20(t *testing.T) {
 // method it is given and feeds it to the real performTCPFallback with counting closures.
 func c20E2e(t *testing.T, rep *hx.Report, orc *hx.Oracle) {
 	type e2eCase struct {
-		proto, method       string
-		gotMethod           string
-		minTTL, maxTTL      int
-		nSyn, nSack, nSock  int
-		rtt                 float64
-		err                 error
-		line                string
+		proto, method      string
+		gotMethod          string
+		minTTL, maxTTL     int
+		nSyn, nSack, nSock int
+		rtt                float64
+		err                error
+		line               string
 	}
 	var cases []e2eCase
 	for _, proto := range []string{"tcp", "udp", "icmp", "TCP", ""} {
